@@ -230,8 +230,8 @@ func vc08FuzzDecoders() []string {
 	return decs
 }
 
-// the stream: perDecoder inputs for each decoder
-func vc08FuzzStream(out *vOut, seed uint64, perDecoder int) {
+// the stream: per inputs for each of the decoder families pb, q, st, and per/7 for each record type of the mp and js families
+func vc08FuzzStream(out *vOut, seed uint64, per int) {
 	r := newVRand(seed ^ 0xf0220)
 	reported := map[string]bool{}
 	for _, dec := range vc08FuzzDecoders() {
@@ -239,7 +239,11 @@ func vc08FuzzStream(out *vOut, seed uint64, perDecoder int) {
 		if len(seeds) == 0 {
 			continue
 		}
-		for i := 0; i < perDecoder; i++ {
+		n := per
+		if strings.Contains(dec, ":") {
+			n = per / 7
+		}
+		for i := 0; i < n; i++ {
 			data := vc08Mutate(r, seeds[r.intn(len(seeds))], seeds[r.intn(len(seeds))])
 			verdict, violation := vc08FuzzOne(dec, data)
 			out.count("fuzz:" + verdict)
